@@ -54,7 +54,7 @@ CASE_TIMEOUT = 20
 
 logging.disable(logging.CRITICAL)
 
-GENERATED = [c05_units.gen_units, c05_paths.gen_argpaths, c05_paths.gen_catpaths]
+GENERATED = [c05_units.gen_units, c05_units.gen_ligatures, c05_paths.gen_argpaths, c05_paths.gen_catpaths]
 
 UNITS = ['pt', 'pc', 'in', 'bp', 'cm', 'mm', 'dd', 'cc', 'sp', 'ex', 'em']
 FILS = ['filll', 'fill', 'fil']
@@ -399,6 +399,8 @@ def gen_pair_content(rng, b, e, depth):
 
 
 CTRL_SYMS = '[]()<>{}*=,;'
+# what follows the call starts with a control sequence whose name is blank (`\\ `, `\\<tab>`): a token, not skippable white space
+BLANK_CS_RESTS = [['x32', 'c82'], ['x32'], ['x9', 'c120'], ['x32', 'c91', 'c110', 'c93'], ['x32', '{', 'c120', '}']]
 
 
 def sprinkle_cs(rng, cont, extra=''):
@@ -444,12 +446,15 @@ def gen_call_case(rng):
         else:
             if rng.random() < 0.2:
                 cont = [w_ch(rng.choice('abcXYZ059.;'))]
+            elif nox and rng.random() < 0.15:
+                # one control sequence written bare in the argument position: a control space `\\ `, `\\<tab>`, a control symbol, `\\relax`
+                cont = ['x' + rng.choice(['32', '32', '9', str(ord(rng.choice(CTRL_SYMS))), dots('relax')])]
             else:
                 cont = gen_content(rng, 2, '')
                 if nox and rng.random() < 0.5:
                     cont = sprinkle_cs(rng, cont, '{}')
             words += ['t', str(pre), 'P', str(len(cont))] + cont
-    rest = rng.choice([[], ['c82'], ['c82', 'c69'], ['{', 'c120', '}'], ['x' + dots('relax'), 'c82'], ['c46']])
+    rest = rng.choice([[], ['c82'], ['c82', 'c69'], ['{', 'c120', '}'], ['x' + dots('relax'), 'c82'], ['c46']] + BLANK_CS_RESTS)
     return Case('call', ' '.join(words + ['|'] + rest), {'nox': nox})
 
 
@@ -630,7 +635,7 @@ def gen_arg_case(rng, malformed=False):
                 call += pre + ['{'] + v + ['}']
                 if ex:
                     expects[len(sig) - 1] = ex[0]
-    rest = rng.choice([[], ['c82'], ['c82', 'c69'], ['{', 'c120', '}'], ['x' + dots('relax'), 'c82'], ['c46'], ['s', 'c82']])
+    rest = rng.choice([[], ['c82'], ['c82', 'c69'], ['{', 'c120', '}'], ['x' + dots('relax'), 'c82'], ['c46'], ['s', 'c82']] + BLANK_CS_RESTS[:3])
     if used_last:
         rest = rng.choice([[], ['c82'], ['x' + dots('relax'), 'c82'], ['c46']])
         if call and call[-1] == 's' and rest[:1] == ['s']:
@@ -723,6 +728,23 @@ def run_parse(cls, words, with_src=True):
     return 'ok ' + vals + src + rest_of(tex) + level_note() + cat_note(cats0, cats1)
 
 
+def run_mode(words):
+    """push real contexts (a group for N at even depth, else a macro whose class sets / leaves mathMode) and ask the real Context"""
+    import plasTeX
+    from plasTeX import TeXDocument
+    doc = TeXDocument()
+    try:
+        for i, w in enumerate(words):
+            m = {'T': True, 'F': False, 'N': None}[w]
+            if m is None and i % 2 == 0:
+                doc.context.push()
+            else:
+                doc.context.push(type('ctx%d' % i, (plasTeX.Command,), {'mathMode': m})())
+        return 'ok:true' if doc.context.isMathMode else 'ok:false'
+    except Exception as e:
+        return canon_exc(e)
+
+
 def cat_snapshot(doc):
     """the character categories in force (as sets: restoring re-appends a character, the order is immaterial)"""
     return [frozenset(c) for c in doc.context.categories]
@@ -768,6 +790,12 @@ def generate(ctx):
         yield finish_arg_case(gen_arg_case(rng, malformed=rng.random() < 0.15))
     for c in c05_sig.gen_sig_cases(rng, n_sig):
         yield c
+    for _ in range(300 if q else 5000):
+        wrap, stack = rng.choice(WRAP_STACKS)
+        t = ''.join(rng.choice(["'", "''", '-', '--', '---', '`', '``', 'a', 'f', '1', '"`', '"']) for _ in range(rng.randint(1, 4)))
+        yield Case('ligs', stack + ' | ' + ' '.join(str(ord(c)) for c in t), {'wrap': wrap, 'text': t})
+    for _ in range(300 if q else 5000):
+        yield Case('mode', ' '.join(rng.choice('NNTF') for _ in range(rng.randint(0, 7))), {})
 
 
 def corpus():
@@ -787,11 +815,15 @@ def corpus():
         Case('call', '2 60.62 0 P 3 c97 x62 c98 t 0 P 1 c109 | c82', {'nox': True}, 'corpus'),
         Case('call', '2 91.93 0 P 3 c120 x91 c121 t 0 P 1 c109 | c82', {'nox': True}, 'corpus'),
         Case('call', '2 t 0 P 3 c97 x125 c98 40.41 0 P 2 x40 c49 | c82', {'nox': True}, 'corpus'),
+        # a control space is a token: \\foo\\ {x}y (the argument), \\foo{x}\\ next with a trailing absent optional
+        Case('call', '1 t 0 P 1 x32 | { c120 } c121', {'nox': True}, 'corpus'),
+        Case('call', '2 t 0 P 1 c120 91.93 0 A 0 | x32 c110', {}, 'corpus'),
+        Case('call', '2 91.93 0 A 0 t 0 P 1 x32 | c91 c112 c93', {'nox': True}, 'corpus'),
     ]
 
 
 def nontrivial(o):
-    return o.spec.startswith('ok') and o.case.stream in ('lit', 'call', 'sigtree')
+    return o.spec.startswith('ok') and o.case.stream in ('lit', 'call', 'sigtree', 'mode')
 
 
 def impl(case, aux):
@@ -835,6 +867,11 @@ def impl(case, aux):
     if st == 'arg':
         cls, _ = compile_decl(case.meta['sig'])
         return run_parse(cls, case.meta['toks'])
+    if st == 'mode':
+        return run_mode(case.line.split())
+    if st == 'ligs':
+        got = mode_observe({'sig': 'a', 'call': '{%s}' % case.meta['text'], 'wrap': case.meta['wrap']})
+        return 't:' + cps_of(got['a']) if isinstance(got, dict) else got
     if st in ('sig', 'sigtree'):
         return c05_sig.impl_sig(case, aux) if c05_sig.impl_sig.__code__.co_argcount > 1 else c05_sig.impl_sig(case)
     raise ValueError(st)
@@ -887,7 +924,7 @@ def split_values(obs):
 
 
 def judge(o):
-    if o.case.stream in ('sig', 'sigtree'):
+    if o.case.stream in ('sig', 'sigtree', 'mode', 'ligs'):
         o.corr_ok = (o.impl == o.model)
         o.prop_ok = (o.spec == '-' or o.impl == o.spec)
         return
@@ -1016,10 +1053,84 @@ def extra_checks(ctx):
             viol.append(Violation('the text that follows the invocation is read differently from the same text after a macro without arguments',
                                   {'kind': 'failing-input', 'extra': spec, 'observed': obs,
                                    'expected': 'with_arguments == without_arguments'}))
+    fixed_m = [{'sig': 'a', 'call': "{f'}", 'vals': {'a': "f'"}, 'math': True, 'wrap': '\\mbox{$%s$}'},
+               {'sig': '[ o ] a', 'call': "[x--y]{g''}", 'vals': {'o': 'x--y', 'a': "g''"}, 'math': True, 'wrap': '\\hbox{$%s$}'},
+               {'sig': 'a', 'call': "{a'--}", 'vals': {'a': "a'--"}, 'math': False, 'wrap': '$\\mbox{%s}$'}]
+    for spec in fixed_m + [gen_mode_spec(rng) for _ in range(150 if ctx.tier == 'quick' else 2500)]:
+        n += 1
+        bad, obs, want = mode_fails(spec)
+        if bad:
+            viol.append(Violation('an argument written in %s mode is not bound to the text written%s' % (
+                                      'math' if spec['math'] else 'text', '' if spec['math'] else ' (with TeX\'s text ligatures)'),
+                                  {'kind': 'failing-input', 'extra': spec, 'observed': obs, 'expected': want}))
     return viol, {'evaluations': n, 'distinct_nontrivial': n, 'samples': samples}
 
 
+# ---- document level: an argument is bound to what was written, whatever encloses the formula / text box it is written in
+
+MATH_WRAPS = ['$%s$', '\\(%s\\)', '\\[%s\\]', '\\mbox{$%s$}', '\\hbox{$%s$}', '\\mbox{t $%s$ t}', '{\\bf $%s$}', '\\begin{equation}%s\\end{equation}',
+              '\\ensuremath{%s}', '$\\mbox{a $%s$}$', '\\mbox{\\mbox{$%s$}}', '\\textbf{$%s$}']
+TEXT_WRAPS = ['%s', '\\mbox{%s}', '$\\mbox{%s}$', '$a\\hbox{b %s}$', '\\mbox{$\\mbox{%s}$}', '\\textbf{%s}', '$\\textbf{%s}$', '{\\it %s}',
+              '\\[\\mbox{%s}\\]']
+
+
+# the context stack (outermost first) each wrapper puts around the invocation: T formula, F text box, N group
+WRAP_STACKS = [('%s', ''), ('$%s$', 'T'), ('\\(%s\\)', 'T'), ('\\mbox{%s}', 'F'), ('\\mbox{$%s$}', 'F T'), ('\\hbox{$%s$}', 'F T'), ('$\\mbox{%s}$', 'T F'),
+               ('$a\\hbox{b %s}$', 'T F'), ('\\mbox{$\\mbox{%s}$}', 'F T F'), ('{\\bf $%s$}', 'N T'), ('\\mbox{\\mbox{$%s$}}', 'F F T'),
+               ('$\\mbox{a $%s$}$', 'T F T'), ('{{$%s$}}', 'N N T'), ('\\mbox{{%s}}', 'F N')]
+
+
+def tex_ligatures(text):
+    """TeX's text ligatures, in the order of the document's table"""
+    from plasTeX import TeXDocument
+    for src, dest in TeXDocument.defaultCharsubs:
+        text = text.replace(src, dest)
+    return text
+
+
+def mode_observe(spec):
+    import plasTeX
+    from plasTeX.TeX import TeX
+    from plasTeX import ParameterCommand
+    ParameterCommand._enablelevel = 0
+    ParameterCommand.enabled = True
+    tex = TeX()
+    tex.ownerDocument.context.addGlobal('foo', type('foo', (plasTeX.Command,), {'args': spec['sig']}))
+    tex.input(spec['wrap'] % ('\\foo' + spec['call']))
+    try:
+        doc = tex.parse()
+        node = doc.getElementsByTagName('foo')[0]
+        return {k: (None if v is None else str(v.textContent)) for k, v in node.attributes.items()}
+    except Exception as e:
+        return canon_exc(e)
+
+
+def mode_fails(spec):
+    got = mode_observe(spec)
+    want = {k: (None if v is None else (v if spec['math'] else tex_ligatures(v))) for k, v in spec['vals'].items()}
+    return got != want, {'bound': got, 'document': spec['wrap'] % ('\\foo' + spec['call'])}, want
+
+
+def gen_mode_spec(rng):
+    def text():
+        return ''.join(rng.choice(["'", "''", '-', '--', '---', '`', '``', 'a', 'f', 'x', '1', 'y']) for _ in range(rng.randint(1, 4)))
+    sig, call, vals = [], '', {}
+    if rng.random() < 0.5:
+        sig.append('[ o ]')
+        if rng.random() < 0.6:
+            t = text(); call += '[%s]' % t; vals['o'] = t
+        else:
+            vals['o'] = None
+    for name in 'ab'[:rng.randint(1, 2)]:
+        sig.append(name)
+        t = text(); call += '{%s}' % t; vals[name] = t
+    math = rng.random() < 0.55
+    return {'sig': ' '.join(sig), 'call': call, 'vals': vals, 'math': math, 'wrap': rng.choice(MATH_WRAPS if math else TEXT_WRAPS)}
+
+
 def replay_extra(ctx, extra):
+    if 'wrap' in extra:
+        return mode_fails(extra)[0]
     if 'args' in extra:
         return follow_fails(extra)[0]
     return doc_fails(extra['doc'], extra['expected_mycnt'])[0]
